@@ -228,6 +228,7 @@ static void do_judge(std::map<std::string, std::string>& kv) {
 
 int main() {
   std::ios::sync_with_stdio(false);
+  mp::VerifExactJSONNumbers() = true;      // hook in mp/util-json-write.h: delivered numbers without rounding to 6 digits
   std::string line;
   while (std::getline(std::cin, line)) {
     std::string op; auto kv = parse_req(line, op);
